@@ -30,6 +30,10 @@ def _variants(tier):
         for qdt in ("float64", "longdouble"):
             vs.append("%s|int64>%s|array|-1|0" % (fn, qdt))
     vs.append("scalar|int64>float64|list|-1|0")
+    # ONE list object per array length, refilled in place, the same query asked of consecutive contents: the answer depends on the
+    # contents, not on the identity of the container or on the previous call
+    vs.append("scalar|float64|listreuse|1|0")
+    vs.append("scalar|int64|listreuse|1|0")
     return vs
 
 
@@ -50,6 +54,20 @@ def observe_lookup(gen, variants):
         sh, off = int(sh), int(off)
         qdt = np.dtype(dt.split(">")[1]) if ">" in dt else np.dtype(dt)
         dt = np.dtype(dt.split(">")[0])
+        if cont == "listreuse":
+            pool = {}
+            results = {}
+            for q in qs:
+                qx = _map(q, sh, off, qdt)
+                for ai, a in enumerate(gen["arrays"]):
+                    lst = pool.setdefault(len(a), [None] * len(a))
+                    for j, x in enumerate(a):
+                        lst[j] = np.asarray(_map(x, sh, off, dt))       # refilled IN PLACE: same object, same length, other contents
+                    results.setdefault(ai, []).append(int(deutil.search_bisection(lst, qx)))
+            for ai, a in enumerate(gen["arrays"]):
+                cases.append({"id": cid, "variant": var, "a": list(a), "qs": list(qs), "res": results[ai]})
+                cid += 1
+            continue
         for a in gen["arrays"]:
             arr = np.array([_map(x, sh, off, dt) for x in a], dtype=dt)
             qv = [_map(q, sh, off, qdt) for q in qs]
@@ -70,9 +88,12 @@ def observe_hermite(gen, variants):
     out = []
     cid = 0
     for var in variants:
-        dt = np.dtype(var)
+        # "int64": the piece's DATA (knots, values, slopes) are integers, the query is a float64 (the integer cubics of the scope have
+        # integer values and slopes at the integer knots): the value between the knots is the cubic's, not a truncated one
+        ddt = np.dtype("int64") if var == "int64" else np.dtype(var)
+        dt = np.dtype("float64") if var == "int64" else np.dtype(var)
         eps = num.eps_of(dt)
-        C = np.array(gen["cubics"], dtype=dt)  # (m, 4)
+        C = np.array(gen["cubics"], dtype=ddt)  # (m, 4)
 
         def p(t):
             return C[:, 0] + C[:, 1] * t + C[:, 2] * t * t + C[:, 3] * t * t * t
@@ -81,7 +102,7 @@ def observe_hermite(gen, variants):
             return C[:, 1] + 2 * C[:, 2] * t + 3 * C[:, 3] * t * t
         for case in gen["cases"]:
             t0, t1, k, d = case["t0"], case["t1"], case["k"], case["d"]
-            T0, T1 = np.asarray(t0, dtype=dt), np.asarray(t1, dtype=dt)
+            T0, T1 = np.asarray(t0, dtype=ddt), np.asarray(t1, dtype=ddt)
             interp = CubicHermiteInterp(T0, T1, p(T0), p(T1), dp(T0), dp(T1))
             t = np.asarray(k / 4.0, dtype=dt)
             v = interp(t)
@@ -134,7 +155,7 @@ def check(run, replay=None):
     # Hermite
     hcfg = "HermiteMC_thorough" if thorough else "HermiteMC"
     hgen = run.generate("HermiteMC", hcfg, workers=4)
-    hvars = ["float64", "longdouble"] + (["float32"] if thorough else [])
+    hvars = ["float64", "longdouble", "int64"] + (["float32"] if thorough else [])
     obs = observe_hermite(hgen, hvars)
     run.evaluations += sum(len(o["vu"]) for o in obs)
     for o in obs:
